@@ -52,3 +52,18 @@ def c03_corpus(outdir, rc_exe, env):
     subprocess.run([rc_exe], env=e, stdout=subprocess.DEVNULL, stderr=subprocess.DEVNULL, timeout=600)
     shutil.rmtree(e['VF_OUT'], ignore_errors=True)
     return outdir
+
+
+def c08_corpus(outdir, rc_exe, env):
+    """golden dictionary + a little content + control words (level, mode, attach, split) for the dictionary fuzz arm"""
+    os.makedirs(outdir, exist_ok=True)
+    g = open(os.path.join(build.REPO, 'tests', 'golden-dictionaries', 'http-dict-missing-symbols'), 'rb').read()
+    content = (b'GET /index.html HTTP/1.1\r\nHost: example.com\r\n' * 6)[:256]
+    for mode in range(6):
+        body = g + content
+        if len(body) & 1:
+            body += b'\0'
+        # controls are read from the END: lvl, mode, attach, split
+        ctl = struct.pack('<4H', len(g) & 0xFFFF, 0, mode, 6)
+        open(os.path.join(outdir, 'golden-%d' % mode), 'wb').write(body + ctl)
+    return outdir
